@@ -81,6 +81,84 @@ theorem decode_gregorian (x : ℚ) (s : Bool) (D k : Int) (hx62 : (62 : ℚ) ≤
       = (if s = true then epoch1904 else epoch1900) + (w * 86400000000000 + dur) := by omega
   rw [hassoc]
 
+/-- Gregorian path, EVERY rational input x ≥ 62 (sub-second fractions included): the result is the
+epoch plus `secondRule ⌊86400e9·x + 86400⌋` — the nanoseconds of x, shifted by the rounding
+epsilon (10⁻⁹ day = 86 400 ns), cut to an integer, then rounded up to the next second iff the
+sub-second part is ≥ 501 ms, else truncated -/
+theorem decode_gregorian_rule (x : ℚ) (s : Bool) (hx62 : (62 : ℚ) ≤ x) :
+    timeFromExcelTime x s =
+      (if s then epoch1904 else epoch1900) + secondRule ⌊(86400000000000 : ℚ) * x + 86400⌋ := by
+  have hx0 : (0 : ℚ) ≤ x := by linarith
+  unfold timeFromExcelTime
+  simp only []
+  rw [ratTrunc_nonneg x hx0]
+  have hw : (62 : Int) ≤ ⌊x⌋ := Int.le_floor.mpr (by exact_mod_cast hx62)
+  rw [if_neg (by omega)]
+  have hfl := Int.floor_le x
+  obtain ⟨c1, c2, c3, _⟩ := consts_ok
+  have heps : roundEpsilon = 1 / 1000000000 := by
+    unfold roundEpsilon; rw [c2, c3]; norm_num
+  have hfp : (0 : ℚ) ≤ (nanosInADay : ℚ) * (x - (⌊x⌋ : ℚ) + roundEpsilon) := by
+    rw [c1, heps]; push_cast; nlinarith
+  rw [ratTrunc_nonneg _ hfp]
+  -- ⌊day·(x − w + ε)⌋ = ⌊day·x + 86400⌋ − w·day
+  have hsplit : (nanosInADay : ℚ) * (x - (⌊x⌋ : ℚ) + roundEpsilon)
+      = ((86400000000000 : ℚ) * x + 86400) - ((⌊x⌋ * 86400000000000 : Int) : ℚ) := by
+    rw [c1, heps]; push_cast; ring
+  rw [hsplit, Int.floor_sub_intCast]
+  generalize ⌊(86400000000000 : ℚ) * x + 86400⌋ = N
+  generalize ⌊x⌋ = w
+  obtain ⟨e0, e4, _, _⟩ := epochs_ok
+  have hnd : nsPerDay = 86400000000000 := by decide
+  have hns : nsPerSec = 1000000000 := by decide
+  unfold roundSecond truncSecond secondRule
+  rw [hnd, hns]
+  simp only []
+  have hE : (if s then epoch1904 else epoch1900) % 1000000000 = 0 := by
+    cases s <;> simp only [Bool.false_eq_true, if_false, if_true] <;> [rw [e0]; rw [e4]] <;> decide
+  generalize (if s then epoch1904 else epoch1900) = E at *
+  have hsum : E + w * 86400000000000 + (N - w * 86400000000000) = E + N := by omega
+  rw [hsum]
+  have hmod : (E + N) % 1000000000 = N % 1000000000 := by omega
+  rw [hmod]
+  split
+  · rename_i h501
+    rw [if_neg (by omega)]; omega
+  · omega
+
+/-- sub-second inputs on the Gregorian path: a stored value within 2⁻³⁰ day of the exact serial of
+day D, second k, f nanoseconds decodes to second k when f ≤ 0.500833 s and to second k+1 when
+f ≥ 0.5009941 s (between the two the float error decides) -/
+theorem decode_subsecond (x : ℚ) (s : Bool) (D k f : Int) (hx62 : (62 : ℚ) ≤ x) (hk0 : 0 ≤ k) (hf0 : 0 ≤ f)
+    (hf : f < 1000000000)
+    (hx : |x - ((D : ℚ) + ((k : ℚ) * 1000000000 + (f : ℚ)) / 86400000000000)| ≤ 1 / 1073741824) :
+    (f ≤ 500833000 → timeFromExcelTime x s =
+        (if s then epoch1904 else epoch1900) + (D * 86400000000000 + k * 1000000000)) ∧
+    (500994100 ≤ f → timeFromExcelTime x s =
+        (if s then epoch1904 else epoch1900) + (D * 86400000000000 + (k + 1) * 1000000000)) := by
+  obtain ⟨hlo, hhi⟩ := abs_le.mp hx
+  rw [decode_gregorian_rule x s hx62]
+  have hN1 := Int.floor_le ((86400000000000 : ℚ) * x + 86400)
+  have hN2 := Int.lt_floor_add_one ((86400000000000 : ℚ) * x + 86400)
+  generalize ⌊(86400000000000 : ℚ) * x + 86400⌋ = N at *
+  -- N is within 80 467 ns of T + f + 86400, T = D days + k seconds
+  have hA : D * 86400000000000 + k * 1000000000 + f + 86400 - 80468 ≤ N := by
+    have : ((D * 86400000000000 + k * 1000000000 + f + 86400 - 80468 : Int) : ℚ) < ((N + 1 : Int) : ℚ) := by
+      push_cast; linarith
+    have := Int.cast_lt.mp this
+    omega
+  have hB : N ≤ D * 86400000000000 + k * 1000000000 + f + 86400 + 80468 := by
+    have : ((N : Int) : ℚ) < ((D * 86400000000000 + k * 1000000000 + f + 86400 + 80468 + 1 : Int) : ℚ) := by
+      push_cast; linarith
+    have := Int.cast_lt.mp this
+    omega
+  unfold secondRule
+  constructor
+  · intro hsmall
+    split <;> omega
+  · intro hbig
+    split <;> omega
+
 /-! ### Julian path (serial < 62) -/
 
 /-- Fliegel–Van Flandern on the Julian day numbers the path can reach equals the model calendar:
